@@ -341,14 +341,14 @@ theorem wfField_eq [Add K] [Mul K] [Zero K] (one : K) (s0 s1 : Int) (data : List
   rfl
 
 /-- **`Wavefront.insert` iterates `reduce(self.data)` and inserts `|.|^2` times the caller's weight** (`Gen.insertWiring`) -/
-theorem wfInsert_eq [Add K] [Mul K] [Zero K] (nsq : K → K) (data : List (Fld K)) (out : Arr K) (w : K) :
-    wfInsert nsq data out w = (reduce data).foldl (insertStep nsq w) (some out) := by
+theorem wfInsert_eq [Add K] [Mul K] [Zero K] (one : K) (nsq : K → K) (data : List (Fld K)) (out : Arr K) (w : K) :
+    wfInsert one nsq data out w = (reduce data).foldl (insertStep nsq w) (some out) := by
   unfold wfInsert viewRun
   simp only [Gen.insertWiring, if_true, Bool.false_eq_true, if_false]
 
 /-- **`Wavefront.intensity` is `insert` into zeros with weight 1** (`Gen.intensityWiring`: through `reduce`, `intensity=True`) -/
 theorem wfIntensity_eq [Add K] [Mul K] [Zero K] (one : K) (nsq : K → K) (s0 s1 : Int) (data : List (Fld K)) :
-    wfIntensity one nsq s0 s1 data = wfInsert nsq data (zerosArr s0 s1) one := by
+    wfIntensity one nsq s0 s1 data = wfInsert one nsq data (zerosArr s0 s1) one := by
   rw [wfInsert_eq]
   unfold wfIntensity viewRun
   simp only [Gen.intensityWiring, if_true, Bool.false_eq_true, if_false]
